@@ -128,15 +128,31 @@ func cmdRpcs(args []string) {
 			panic(machineryError{"RPC " + d.Method + " declares no signer field"})
 		}
 		for _, s := range rpcSignerClasses {
-			// non-authority signers first on the pristine state, then the same after real state exists
-			in := Input{T: "admin", Rpc: d.Method, Signer: s, Pid: "UNSUPPORTED", Aid: "UNSUPPORTED", Who: "x"}
+			// the body is VALID for the RPCs the specification knows, so that nothing but the signer
+			// decides: pause-type messages are valid on the fresh state, unpause-type messages after the
+			// three committed pauses of the second variant (default body for an unknown RPC)
+			in := Input{T: "admin", Rpc: d.Method, Signer: s, Pid: "CCTP", Aid: "FEE", V: 7, Who: "x"}
+			if strings.Contains(d.Method, "CrossChains") {
+				in.Pid, in.Cps = "HYP", []string{"1"}
+			}
 			in.Fw.Mint, in.Fw.Caller = "MINT_B", "CALLER_B"
 			in.normalise()
-			pre := Input{T: "admin", Rpc: "PauseProtocol", Signer: "AUTH", Pid: "CCTP"}
-			pre.normalise()
+			pres := []Input{
+				{T: "admin", Rpc: "PauseProtocol", Signer: "AUTH", Pid: "CCTP"},
+				{T: "admin", Rpc: "PauseCrossChains", Signer: "AUTH", Pid: "HYP", Cps: []string{"1"}},
+				{T: "admin", Rpc: "PauseAction", Signer: "AUTH", Aid: "FEE"},
+			}
+			for i := range pres {
+				pres[i].normalise()
+			}
+			// and once with the default (empty) body: the check must not depend on the rest of the message
+			def := Input{T: "admin", Rpc: d.Method, Signer: s, Pid: "UNSUPPORTED", Aid: "UNSUPPORTED", Who: "x"}
+			def.Fw.Mint, def.Fw.Caller = "MINT_B", "CALLER_B"
+			def.normalise()
 			must(enc.Encode(Behaviour{B: fmt.Sprintf("RPCS-%s-%s", d.Method, s), Steps: []Input{in}}))
-			must(enc.Encode(Behaviour{B: fmt.Sprintf("RPCS-%s-%s-after", d.Method, s), Steps: []Input{pre, in}}))
-			n += 2
+			must(enc.Encode(Behaviour{B: fmt.Sprintf("RPCS-%s-%s-after", d.Method, s), Steps: append(append([]Input{}, pres...), in)}))
+			must(enc.Encode(Behaviour{B: fmt.Sprintf("RPCS-%s-%s-default", d.Method, s), Steps: []Input{def}}))
+			n += 3
 		}
 	}
 	fmt.Fprintf(os.Stderr, "orbsim: %d Msg RPCs enumerated from the service descriptors, %d histories\n", len(rpcs), n)
